@@ -139,11 +139,31 @@ def simplify_single(record):
             yield r2
 
 
-def base_record(prop, seed, run, tier):
-    return {'property': prop, 'seed': seed, 'run': run, 'tier': tier, 'debug': True, 'clients': [], 'ops': [],
-            'alias_objects': stream(seed, prop, run, 'alias').random() < 0.15,
+def knobs(prop, seed, run):
+    """process-wide construction knobs of one run (how the harness concretises worlds; see lib.mk_state / mk_obj)"""
+    return {'alias_objects': stream(seed, prop, run, 'alias').random() < 0.15,
             'grid_from_shape': stream(seed, prop, run, 'from_shape').random() < 0.12,
-            'door_status_assigned': stream(seed, prop, run, 'door_assign').random() < 0.12}
+            'door_status_assigned': stream(seed, prop, run, 'door_assign').random() < 0.12,
+            'held_item_assigned': stream(seed, prop, run, 'held_assign').random() < 0.15,
+            'numpy_coordinates': stream(seed, prop, run, 'numpy_coords').random() < 0.12}
+
+
+KNOB_PROBES = {'alias_objects': 'knob:object_identity_aliasing', 'grid_from_shape': 'knob:grid_built_with_from_shape',
+               'door_status_assigned': 'knob:door_status_assigned_after_construction', 'held_item_assigned': 'knob:held_item_assigned_after_construction',
+               'numpy_coordinates': 'knob:numpy_integer_coordinates'}
+
+
+def probe_knobs(record, ctx):
+    """for checks that do not run a Sim over the record (the Sim constructor does this itself)"""
+    for k, name in KNOB_PROBES.items():
+        if record.get(k):
+            ctx.probe(name)
+
+
+def base_record(prop, seed, run, tier):
+    rec = {'property': prop, 'seed': seed, 'run': run, 'tier': tier, 'debug': True, 'clients': [], 'ops': []}
+    rec.update(knobs(prop, seed, run))
+    return rec
 
 
 def seam_break(ev):
